@@ -68,7 +68,8 @@ type src struct {
 	kind string
 	i    int64
 	u    uint64
-	f    float64 // f32 values are held widened
+	f    float64 // f32 values are held widened; real part of a complex
+	im   float64 // imaginary part of a complex
 	b    bool
 	s    string
 	big  *big.Int
@@ -106,6 +107,10 @@ func (v src) base() any {
 		return v.f
 	case "bool":
 		return v.b
+	case "c128":
+		return complex(v.f, v.im)
+	case "c64":
+		return complex64(complex(v.f, v.im))
 	case "str":
 		return v.s
 	case "big":
@@ -158,6 +163,10 @@ func (v src) tokens() string {
 		return fmt.Sprintf("f64 %d %s", math.Float64bits(v.f), hexOrDash(strconv.FormatFloat(v.f, 'g', -1, 64)))
 	case "bool":
 		return "bool " + hx.B01(v.b)
+	case "c128", "c64":
+		// math.Sqrt(re*re + im*im) in float64, as ToFloat64 computes it: a parameter of the model
+		mag := math.Sqrt(v.f*v.f + v.im*v.im)
+		return fmt.Sprintf("%s %d %d %d", v.kind, math.Float64bits(v.f), math.Float64bits(v.im), math.Float64bits(mag))
 	case "big":
 		return "big " + v.big.String()
 	case "nil":
@@ -369,6 +378,11 @@ func (v src) denote() den {
 		return den{"rat", new(big.Rat)}
 	case "str":
 		return denoteString(v.s)
+	case "c128", "c64":
+		if v.im == 0 {
+			return floatDen(v.f) // a complex number with zero imaginary part denotes its real part
+		}
+		return den{class: "none"}
 	case "big":
 		return den{"rat", new(big.Rat).SetInt(v.big)}
 	case "nil", "other":
@@ -621,26 +635,26 @@ func callHelper(h, t string, v any) (res any, err error) {
 // schema constructors: [0] value, [1] pointer; coercing and plain.
 var coerceSchemas = map[string][]func() any{
 	"i8": {func() any { return zc.Int8() }, func() any { return zc.Int8Ptr() }}, "i16": {func() any { return zc.Int16() }, func() any { return zc.Int16Ptr() }},
-	"i32": {func() any { return zc.Int32() }, func() any { return zc.Int32Ptr() }}, "i64": {func() any { return zc.Int64() }, func() any { return zc.Int64Ptr() }, func() any { return zc.Integer() }},
+	"i32": {func() any { return zc.Int32() }, func() any { return zc.Int32Ptr() }}, "i64": {func() any { return zc.Int64() }, func() any { return zc.Int64Ptr() }, func() any { return zc.Integer() }, func() any { return zc.IntegerPtr() }},
 	"int": {func() any { return zc.Int() }, func() any { return zc.IntPtr() }},
 	"u8":  {func() any { return zc.Uint8() }, func() any { return zc.Uint8Ptr() }}, "u16": {func() any { return zc.Uint16() }, func() any { return zc.Uint16Ptr() }},
 	"u32": {func() any { return zc.Uint32() }, func() any { return zc.Uint32Ptr() }}, "u64": {func() any { return zc.Uint64() }, func() any { return zc.Uint64Ptr() }},
 	"uint": {func() any { return zc.Uint() }, func() any { return zc.UintPtr() }},
 	"f32":  {func() any { return zc.Float32() }, func() any { return zc.Float32Ptr() }},
-	"f64":  {func() any { return zc.Float64() }, func() any { return zc.Float64Ptr() }, func() any { return zc.Number() }},
+	"f64":  {func() any { return zc.Float64() }, func() any { return zc.Float64Ptr() }, func() any { return zc.Number() }, func() any { return zc.Float() }, func() any { return zc.NumberPtr() }},
 	"bool": {func() any { return zc.Bool() }, func() any { return zc.BoolPtr() }},
 	"str":  {func() any { return zc.String() }, func() any { return zc.StringPtr() }},
 	"big":  {func() any { return zc.BigInt() }, func() any { return zc.BigIntPtr() }},
 }
 var plainSchemas = map[string][]func() any{
 	"i8": {func() any { return gozod.Int8() }, func() any { return gozod.Int8Ptr() }}, "i16": {func() any { return gozod.Int16() }, func() any { return gozod.Int16Ptr() }},
-	"i32": {func() any { return gozod.Int32() }, func() any { return gozod.Int32Ptr() }}, "i64": {func() any { return gozod.Int64() }, func() any { return gozod.Int64Ptr() }, func() any { return gozod.Int64() }},
+	"i32": {func() any { return gozod.Int32() }, func() any { return gozod.Int32Ptr() }}, "i64": {func() any { return gozod.Int64() }, func() any { return gozod.Int64Ptr() }, func() any { return gozod.Int64() }, func() any { return gozod.Int64Ptr() }},
 	"int": {func() any { return gozod.Int() }, func() any { return gozod.IntPtr() }},
 	"u8":  {func() any { return gozod.Uint8() }, func() any { return gozod.Uint8Ptr() }}, "u16": {func() any { return gozod.Uint16() }, func() any { return gozod.Uint16Ptr() }},
 	"u32": {func() any { return gozod.Uint32() }, func() any { return gozod.Uint32Ptr() }}, "u64": {func() any { return gozod.Uint64() }, func() any { return gozod.Uint64Ptr() }},
 	"uint": {func() any { return gozod.Uint() }, func() any { return gozod.UintPtr() }},
 	"f32":  {func() any { return gozod.Float32() }, func() any { return gozod.Float32Ptr() }},
-	"f64":  {func() any { return gozod.Float64() }, func() any { return gozod.Float64Ptr() }, func() any { return gozod.Float64() }},
+	"f64":  {func() any { return gozod.Float64() }, func() any { return gozod.Float64Ptr() }, func() any { return gozod.Float64() }, func() any { return gozod.Float64() }, func() any { return gozod.Float64Ptr() }},
 	"bool": {func() any { return gozod.Bool() }, func() any { return gozod.BoolPtr() }},
 	"str":  {func() any { return gozod.String() }, func() any { return gozod.StringPtr() }},
 	"big":  {func() any { return gozod.BigInt() }, func() any { return gozod.BigIntPtr() }},
@@ -936,6 +950,90 @@ func stringGrid(r *hx.Rng) []src {
 	return uniq
 }
 
+// exactDecimal renders a rational with a power-of-two denominator exactly.
+func exactDecimal(r *big.Rat) string {
+	k := r.Denom().BitLen() - 1
+	return r.FloatString(k)
+}
+
+// randomNumerals: seeded numeric texts — plain decimals with fraction/exponent, texts sitting
+// exactly on / just above / just below a float32 or float64 rounding tie (where converting
+// through float64 first rounds twice), and one-character corruptions of valid numerals.
+func randomNumerals(r *hx.Rng, n int) []src {
+	digits := func(k int) string {
+		b := make([]byte, k)
+		for i := range b {
+			b[i] = byte('0' + r.Intn(10))
+		}
+		return string(b)
+	}
+	var out []src
+	for i := 0; i < n; i++ {
+		var t string
+		switch r.Intn(5) {
+		case 0:
+			t = digits(1 + r.Intn(20))
+			if r.Chance(50) {
+				t += "." + digits(r.Intn(20))
+			}
+			if r.Chance(40) {
+				t += hx.Pick(r, []string{"e", "E"}) + hx.Pick(r, []string{"", "+", "-"}) + strconv.Itoa(r.Intn(60))
+			}
+			t = hx.Pick(r, []string{"", "", "-", "+"}) + t
+		case 1, 2:
+			// midpoint between two adjacent floats (float32 for case 1, float64 for case 2), ± a hair
+			var lo, hi float64
+			if r.Intn(2) == 0 || true {
+				e := r.Intn(100) - 50
+				if i%7 == 0 {
+					e = -149 + r.Intn(30) // float32 subnormal range
+				}
+				x := float32(math.Ldexp(1+float64(r.Intn(1<<23))/float64(1<<23), e))
+				lo, hi = float64(x), float64(math.Nextafter32(x, float32(math.Inf(1))))
+			}
+			if r.Intn(5) == 4 { // a float64 tie instead
+				x := math.Ldexp(1+float64(r.Next()>>12)/float64(uint64(1)<<52), r.Intn(90)-30)
+				lo, hi = x, math.Nextafter(x, math.Inf(1))
+			}
+			mid := new(big.Rat).Add(new(big.Rat).SetFloat64(lo), new(big.Rat).SetFloat64(hi))
+			mid.Quo(mid, big.NewRat(2, 1))
+			hair := new(big.Rat).Mul(mid, new(big.Rat).SetFrac(big.NewInt(1), new(big.Int).Lsh(big.NewInt(1), 70)))
+			switch r.Intn(3) {
+			case 0:
+				t = exactDecimal(mid)
+			case 1:
+				t = exactDecimal(new(big.Rat).Add(mid, hair))
+			default:
+				t = exactDecimal(new(big.Rat).Sub(mid, hair))
+			}
+			if r.Chance(30) {
+				t = "-" + t
+			}
+		case 3:
+			k := hx.Pick(r, intKinds)
+			g := intGrid(k)
+			v := hx.Pick(r, g)
+			if k.signed {
+				t = strconv.FormatInt(v.i+int64(r.Intn(3)-1)*int64(r.Intn(2)), 10)
+			} else {
+				t = strconv.FormatUint(v.u, 10)
+			}
+			t = hx.Pick(r, []string{"", " ", "\t", "+", "0"}) + t + hx.Pick(r, []string{"", " ", "\n", ".0", ".00", "e0", ".5"})
+			if strings.HasPrefix(t, "+-") || strings.HasPrefix(t, "0-") {
+				t = t[1:]
+			}
+		default:
+			base := hx.Pick(r, []string{"123", "-45.5", "1e10", "0x1F", "6.02e23", "18446744073709551615", "0.000001", "1_000"})
+			pos := r.Intn(len(base) + 1)
+			t = base[:pos] + hx.Pick(r, []string{" ", "+", "-", "_", ".", "e", "E", "x", "0", "9", "p"}) + base[pos:]
+		}
+		if len(t) <= 400 {
+			out = append(out, src{kind: "str", s: t})
+		}
+	}
+	return out
+}
+
 func bigGrid() []src {
 	var out []src
 	add := func(b *big.Int) {
@@ -1050,6 +1148,9 @@ func runC17(c hx.Config) error {
 	}
 	all := func(v src, schemaPct int) {
 		for _, t := range targets {
+			if (v.kind == "c128" || v.kind == "c64") && t == "str" {
+				continue // complex → string renders "(a+bi)"; not a numeric reading, not exercised
+			}
 			for _, h := range helpersFor(t) {
 				emitH(h, t, v)
 			}
@@ -1100,8 +1201,17 @@ func runC17(c hx.Config) error {
 	grid = append(grid, floatGrid(64, r, nf)...)
 	grid = append(grid, floatGrid(32, r, nf)...)
 	grid = append(grid, stringGrid(r)...)
+	ns := 400
+	if thorough {
+		ns = 30000
+	}
+	grid = append(grid, randomNumerals(r, ns)...)
 	grid = append(grid, bigGrid()...)
 	grid = append(grid, src{kind: "bool", b: true}, src{kind: "bool", b: false})
+	for _, c := range [][2]float64{{0, 0}, {3, 0}, {-3, 0}, {3, 4}, {0, 2}, {1.5, 0}, {-0.5, 0}, {1e308, 1e308}, {math.NaN(), 0}, {1, math.NaN()}, {math.Inf(1), 0}, {1 << 53, 0}, {-(1 << 63), 0}} {
+		grid = append(grid, src{kind: "c128", f: c[0], im: c[1]})
+		grid = append(grid, src{kind: "c64", f: float64(float32(c[0])), im: float64(float32(c[1]))})
+	}
 	for i := 0; i < 3; i++ {
 		grid = append(grid, src{kind: "nil", sub: i}, src{kind: "other", sub: i})
 	}
